@@ -466,6 +466,12 @@ impl Ms {
                 voters[j].1 = voters[j].1.max(1u64 << 63);
             }
         }
+        if hostile && h.rng.chance(1, 6) && !voters.is_empty() {
+            // the same account once more in another spelling (upper-case bech32): one account, two rows
+            let v = h.rng.pick(&voters).clone();
+            voters.push((v.0.to_uppercase(), gen_w(&mut h.rng)));
+            h.out.count("instantiate_attempts_with_one_account_in_two_spellings");
+        }
         if hostile && h.rng.chance(1, 4) && !voters.is_empty() {
             // the same entry listed twice verbatim (same address, same weight)
             let v = h.rng.pick(&voters).clone();
